@@ -297,6 +297,7 @@ def eval_expr (repo, module, e, env, cls=None):
       if op is ast.Mult: return a * b
       if op is ast.Mod and isinstance(a, (str, bytes, int)): return a % b
       if op is ast.FloorDiv: return a // b
+      if op is ast.BitXor: return a ^ b
     except Exception: raise _Unknown()
   if isinstance(e, ast.Compare):
     left = eval_expr(repo, module, e.left, env, cls)
@@ -417,6 +418,9 @@ def eval_env (repo, module, e, env, cls=None):
       if op is ast.LShift: return a << b
       if op is ast.RShift: return a >> b
       if op is ast.Mult: return a * b
+      if op is ast.Mod and isinstance(a, (str, bytes, int)) and not isinstance(a, bool): return a % b
+      if op is ast.FloorDiv: return a // b
+      if op is ast.BitXor: return a ^ b
     except Exception: raise _Unknown()
   if isinstance(e, ast.Compare):
     left = eval_env(repo, module, e.left, env, cls)
